@@ -7,12 +7,23 @@ import os
 
 from vcommon import Prop, REPO, load_corpus
 import gen_c14
-from gen_c14 import OPS, F_OPS, fill_args
+from gen_c14 import OPS, F_OPS, fill_args, OBS_OPS, CELL_OPS, CELL_FORMS, INTERRUPT_OPS, INIT_OPS, PRE_OPS
 
 # keys of the shell snapshot that are the importer's own handle, not a patched IPython attribute
 HANDLES = {"app.auto_importer", "ip._auto_importer"}
 # keys IPython itself changes while running cells / completing / managing extensions
-IPY_NOISE = {"Completer.matches", "extension_manager.loaded"}
+IPY_NOISE = {"Completer.matches", "extension_manager.loaded",
+             "displayhook._", "displayhook.__", "displayhook.___"}      # the last results, when they are tuples / lists
+# app traits that only say HOW the application was started (`--ext pyflyby`)
+START_NOISE = {"app.traits.extra_extensions", "app.traits.extensions", "app.traits.argv", "app.traits.extra_args",
+               # the order in which IPython registered its lazily created Magics objects for %config (no hook list;
+               # looking up a magic's instance, as pyflyby's enable does, moves it forward)
+               "ip.configurables"}
+# the installed hook an observation op reaches (model side), and whether it needs pyflyby's AST transformer
+OBS_HOOK = {"run_cell": "astVisit", "run_kbint": "astVisit", "run_sysexit": "astVisit", "pinfo": "ofind", "autocall": "ofind",
+            "prun": "prun", "run_script": "safeExecfile", "complete": "globalMatches", "complete_attr": "attrMatches"}
+VIA_AST = {"run_cell", "run_kbint", "run_sysexit"}
+INTERRUPT_CLASS = {"run_kbint": "KeyboardInterrupt", "run_sysexit": "SystemExit"}
 
 JP_ORDER = [n for n, _ in gen_c14.JOINPOINTS]
 # snapshot keys of the hook lists a third party may rebind / extend
@@ -65,15 +76,26 @@ class ForeignIds:
 
 
 def model_ops(cfg, ops):
-    """(model ops, index of the last model op of each real op)"""
+    """(model ops, index of the last model op of each real op).  Config "preinit": ops of the application-level model
+    (Pfb.Hooks.PreInit): enable/disable before `initialize` act on the application without a shell."""
     fail = 4 if cfg == "jedi" else None
     mops, marks = [], []
     fids = ForeignIds()
     db_ok = True
+    inited = cfg != "preinit"
     for op in ops:
         if cfg == "embedded":
             mops.append(["fresh"])
-        if op == "enable":
+        if op in INIT_OPS:
+            mops.append(["initialize", fail])
+            inited = True
+            if op == "initialize_ext":
+                mops.append(["loadExt", fail])
+        elif not inited and op in ("enable", "enable_again"):
+            mops.append(["preEnable", op == "enable_again"])
+        elif not inited and op == "disable":
+            mops.append(["preDisable"])
+        elif op == "enable":
             mops.append(["enable", False, fail])
         elif op == "enable_again":
             mops.append(["enable", True, fail])
@@ -85,10 +107,10 @@ def model_ops(cfg, ops):
             mops.append(["unloadExt"])
         elif op == "reload_ext":
             mops.append(["reloadExt", fail])
-        elif op == "run_cell":
-            mops.append(["invoke", "astVisit", "ok" if db_ok else "dbLoad"])
-        elif op == "complete":
-            mops.append(["invoke", "globalMatches", "ok" if db_ok else "dbLoad"])
+        elif op in OBS_OPS:
+            # an interrupted import (KeyboardInterrupt / SystemExit is no `Exception`) is not an outcome of the model: the
+            # hook's pyflyby part ends without an internal error, the state is that of `ok`
+            mops.append(["invoke", OBS_HOOK[op], "ok" if db_ok else "dbLoad"])
         elif op in ("f_break_db", "f_fix_db"):
             db_ok = op == "f_fix_db"
             mops.append(["foreign", "other"])
@@ -108,37 +130,59 @@ def case_key(case):
 
 def ref_run(config, ops):
     """The property's reference machine: after each op (enabled, extension loaded, errored, pyflyby's AST
-    transformer still in place, database readable, <auto-import expected for this cell/completion or None>).
+    transformer still in place, database readable, <auto-import expected for this cell/completion or None>,
+    pending, initialised, <exception class an interrupted auto-import leaves as the cell's error, or None>).
     `jedi`: enable cannot succeed under that configuration.  An internal error (a cell or completion meeting a
     broken database while enabled) withdraws the importer and marks it errored; plain enable() then refuses,
-    enable(even_if_previously_errored=True) / load_ext / reload_ext re-enable."""
+    enable(even_if_previously_errored=True) / load_ext / reload_ext re-enable.
+    `preinit`: the application is not initialised at first; an enable issued then is *pending* (nothing of a shell can
+    be hooked yet) and takes effect when app.initialize() creates the shell, unless a disable came in between.
+    A cell whose auto-import is interrupted by KeyboardInterrupt / SystemExit changes nothing: that is no internal error."""
     en, loaded, errored, intact, db_ok = False, False, False, True, True
+    pend, inited = False, config != "preinit"
     out = []
     can = config != "jedi"
 
     def enable(even):
-        nonlocal en, errored, intact
-        if en:
+        nonlocal en, errored, intact, pend
+        if en or pend:
             return
         if errored and not even:
             return
-        if can:
+        if not inited:
+            pend, errored = True, False
+        elif can:
             en, errored, intact = True, False, True
         else:
             errored = True
 
+    def load():
+        nonlocal loaded
+        if not loaded:
+            loaded = True
+            enable(True)
+
     for op in ops:
         auto = None
+        intr = None
         if op == "enable":
             enable(False)
         elif op == "enable_again":
             enable(True)
         elif op == "disable":
-            en = False
+            en = pend = False
+        elif op in INIT_OPS:
+            inited = True
+            if pend:
+                pend = False
+                if can:
+                    en, intact = True, True
+                else:
+                    errored = True
+            if op == "initialize_ext":
+                load()
         elif op == "load_ext":
-            if not loaded:
-                loaded = True
-                enable(True)
+            load()
         elif op == "unload_ext":
             if loaded:
                 loaded = False
@@ -154,15 +198,15 @@ def ref_run(config, ops):
             db_ok = True
         elif op in ("f_clear_ast", "f_drop_pf_ast"):
             intact = False
-        elif op == "run_cell":
-            auto = en and intact and db_ok
-            if en and intact and not db_ok:
+        elif op in OBS_OPS:
+            reach = en and (intact or op not in VIA_AST)     # pyflyby's hook for this kind of cell is reachable
+            if op in INTERRUPT_CLASS:
+                intr = INTERRUPT_CLASS[op] if (reach and db_ok) else None
+            else:
+                auto = reach and db_ok
+            if reach and not db_ok:
                 en, errored = False, True          # internal error -> the importer withdraws
-        elif op == "complete":
-            auto = en and db_ok
-            if en and not db_ok:
-                en, errored = False, True
-        out.append((en, loaded, errored, intact, db_ok, auto))
+        out.append((en, loaded, errored, intact, db_ok, auto, pend, inited, intr))
     return out
 
 
@@ -186,7 +230,7 @@ def _pf_tokens(tok):
 class C14(Prop):
     id = "C14"
     driver = "C14"
-    lean_modules = ["Pfb.C14.Props"]
+    lean_modules = ["Pfb.C14.Props", "Pfb.C14.PreInitProps"]
     theorems = [
         "Pfb.C14.C14_reversible",
         "Pfb.C14.C14_reversible_partial",
@@ -206,11 +250,20 @@ class C14(Prop):
         "Pfb.C14.D3_witness_not_reversible",
         "Pfb.C14.D3_witness_not_once",
         "Pfb.C14.embedded_witness_never_disabled",
+        # round 4: histories that start before app.initialize() (Pfb.Hooks.PreInit)
+        "Pfb.C14.PreInit_app_reversible",
+        "Pfb.C14.PreInit_app_once",
+        "Pfb.C14.PreInit_disabled_stays_disabled",
+        "Pfb.C14.PreInit_shell_untouched",
+        "Pfb.C14.PreInit_paths_agree",
+        "Pfb.C14.runA_sh_st",
     ]
     anchors = [
         ("lib/python/pyflyby/_interactive.py", "AutoImporter.enable"),
         ("lib/python/pyflyby/_interactive.py", "AutoImporter.disable"),
         ("lib/python/pyflyby/_interactive.py", "AutoImporter._enable_internal"),
+        ("lib/python/pyflyby/_interactive.py", "AutoImporter._continue_enable"),
+        ("lib/python/pyflyby/_interactive.py", "AutoImporter._enable_initializer_hooks"),
         ("lib/python/pyflyby/_interactive.py", "AutoImporter._enable_shell_hooks"),
         ("lib/python/pyflyby/_interactive.py", "AutoImporter._enable_reset_hook"),
         ("lib/python/pyflyby/_interactive.py", "AutoImporter._enable_ofind_hook"),
@@ -240,7 +293,11 @@ class C14(Prop):
             "(rebind ip.ast_transformers / cleanup_transforms / input_transformers_post / custom_matchers to new list objects, "
             "append / remove / filter foreign transformers, set_hook) inserted anywhere: every (enable, f, [g,] disable) "
             "combination exhaustively and 1-3 random insertions in 45 % of the sampled sequences; compared step by step with "
-            "the same third-party steps on a shell where pyflyby is never enabled")
+            "the same third-party steps on a shell where pyflyby is never enabled.  Round 4: histories that start on the NOT yet "
+            "initialised application (prefix over {enable, enable_again, disable}, then app.initialize() with or without `--ext "
+            "pyflyby`, then ordinary ops; compared with the same application initialised without pyflyby); other ways of reading a "
+            "known name (`name?`, autocall, %prun, %run, dotted completion); cells whose auto-import is interrupted by "
+            "KeyboardInterrupt / SystemExit raised by the imported module")
     trusted_base = [
         "IPython 9.17 internals: ExtensionManager.load/unload/reload_extension, which attribute each hook lives in, "
         "list.remove (modelled, validated by the correspondence run only)",
@@ -275,20 +332,26 @@ class C14(Prop):
             self.lab = None
 
     def _job(self, case, pf=True):
-        return dict(kind="c14", config=case.get("config", "terminal"), ops=fill_args(case["ops"]), pf=pf)
+        cfg = case.get("config", "terminal")
+        return dict(kind="c14", config=cfg, ops=fill_args(case["ops"]), pf=pf, shapes=cfg == "preinit")
 
     def _ensure_ref(self):
         """plain-IPython answers for every cell / completion the cases can contain (they do not depend on history)"""
         if self._ref:
             return
         for cfg in ("terminal",):
-            ops = [["run_cell", f"zzq_mod_{i}"] for i in range(gen_c14.N_MODS)] + \
-                  [["complete", f"zzq_cmp_{c}_mod"] for c in gen_c14.CMP]
-            r = self.lab.run(cfg, [dict(kind="c14", config=cfg, ops=ops, pf=False)])[0]
-            if "lab_error" in r:
-                raise RuntimeError("reference run failed: " + str(r))
-            for (op, arg), st in zip(ops, r["steps"]):
-                self._ref[(op, arg)] = st
+            ops = []
+            for o in OBS_OPS:
+                n = {"autocall": gen_c14.N_CALL, "run_kbint": gen_c14.N_INT, "run_sysexit": gen_c14.N_INT,
+                     "complete": len(gen_c14.CMP)}.get(o, gen_c14.N_MODS)
+                ops += fill_args([o] * n)
+            # one shell per op kind: in plain IPython nothing gets bound, so the answers do not depend on the order
+            jobs = [dict(kind="c14", config=cfg, ops=[x for x in ops if x[0] == o], pf=False) for o in OBS_OPS]
+            for job, r in zip(jobs, self.lab.run(cfg, jobs)):
+                if "lab_error" in r:
+                    raise RuntimeError("reference run failed: " + str(r))
+                for (op, arg), st in zip(job["ops"], r["steps"]):
+                    self._ref[(op, arg)] = st
         # which variant of the code is this tree?  (does a plain enable;disable leave the reset transformer behind)
         r = self.lab.run("terminal", [dict(kind="c14", config="terminal", ops=fill_args(["enable", "disable"]))])[0]
         cl = r["steps"][-1]["mv"]["hl"]["input_transformers_cleanup"]
@@ -307,7 +370,8 @@ class C14(Prop):
         keys = list(uniq)
         res = self.lab.run_mixed([self._job(uniq[k]) for k in keys])
         # histories with third-party steps: the same steps on a shell on which pyflyby is never enabled
-        fk = [k for k in keys if has_foreign(uniq[k]["ops"])]
+        # ... and histories that start before app.initialize(): the same application initialised without pyflyby
+        fk = [k for k in keys if has_foreign(uniq[k]["ops"]) or uniq[k].get("config") == "preinit"]
         fres = self.lab.run_mixed([self._job(uniq[k], pf=False) for k in fk])
         fmap = dict(zip(fk, fres))
         for k, r in zip(keys, res):
@@ -316,6 +380,8 @@ class C14(Prop):
                     r = fmap[k]
                 else:
                     r = dict(r, fref=[st.get("hlnames") for st in fmap[k]["steps"]])
+                    if uniq[k].get("config") == "preinit":
+                        r["pshape"] = [st.get("shape") for st in fmap[k]["steps"]]
             self._cache[k] = r
 
     # -- cases -----------------------------------------------------------------
@@ -363,6 +429,32 @@ class C14(Prop):
                         ["enable", rm, "run_cell", "complete", "disable", "enable", "run_cell"],
                         ["enable", rm, "reload_ext", "run_cell"], ["enable", rm, "enable", "disable", "disable", "enable_again", "run_cell"]):
                 out.append(dict(config="terminal", ops=ops))
+        # round 4: every way of reading a known name (pinfo, autocall, %prun, %run, dotted completion) on / off / after an
+        # internal error; cells whose auto-import is interrupted by KeyboardInterrupt / SystemExit (no internal error:
+        # the importer must still be on for the next cell)
+        for c in CELL_FORMS:
+            for ops in (["enable", c, "disable", c], [c, "load_ext", c, "unload_ext", c], ["enable", c, c, "reload_ext", c],
+                        ["enable", "f_break_db", c, "f_fix_db", "run_cell", "enable_again", c],
+                        ["enable", "f_clear_ast", c, "run_cell", "disable", c]):
+                out.append(dict(config="terminal", ops=ops))
+        for c in INTERRUPT_OPS:
+            for d in ["run_cell"] + (CELL_FORMS if tier == "thorough" else ["pinfo", "complete_attr"]):
+                out.append(dict(config="terminal", ops=["enable", c, d, "enable", "disable", d]))
+            for ops in (["load_ext", c, c, "run_cell", "unload_ext", c], [c, "enable", "run_cell", c, "run_cell", "complete"],
+                        ["enable", c, "disable", "enable", "run_cell"], ["enable", "f_break_db", c, "f_fix_db", "enable", "run_cell"],
+                        ["enable", c, "enable_again", c, "reload_ext", "run_cell", c, "run_cell"]):
+                out.append(dict(config="terminal", ops=ops))
+        # round 4: enable / disable on an application that is not initialised yet, then app.initialize()
+        pres = [[]] + [[a] for a in PRE_OPS] + [[a, b] for a in PRE_OPS for b in PRE_OPS]
+        if tier == "thorough":
+            pres += [[a, b, c] for a in PRE_OPS for b in PRE_OPS for c in PRE_OPS]
+        else:
+            pres += [["enable", "disable", "enable"], ["enable", "disable", "disable"], ["enable_again", "disable", "enable_again"]]
+        posts = [["run_cell", "enable", "run_cell", "disable", "run_cell"], ["disable", "run_cell", "enable", "run_cell", "disable"],
+                 ["run_cell", "load_ext", "complete", "unload_ext", "run_cell"], ["pinfo", "reload_ext", "run_cell", "disable", "enable", "run_cell"]]
+        for pre in pres:
+            for j, post in enumerate(posts):
+                out.append(dict(config="preinit", ops=pre + [INIT_OPS[(j + len(pre)) % 2]] + post))
         out += general          # targeted sets first: a deadline cut drops general sequences, not these
         for c in load_corpus(self.id):
             self._plan(c)
@@ -370,6 +462,9 @@ class C14(Prop):
 
     def gen_case(self, rng, i, tier):
         r = rng.random()
+        if r < 0.12:
+            return self._plan(dict(config="preinit", ops=gen_c14.gen_preinit(rng)))
+        r = (r - 0.12) / 0.88
         cfg = "terminal" if r < 0.9 else ("jedi" if r < 0.95 else "embedded")
         if tier == "thorough":
             ops = gen_c14.gen_ops(rng, 6)
@@ -384,6 +479,8 @@ class C14(Prop):
             ops = gen_c14.add_foreign(rng, ops)
         elif cfg == "terminal" and r2 < 0.6:
             ops = gen_c14.add_errors_and_removals(rng, ops)
+        if cfg == "terminal" and rng.random() < 0.6:
+            ops = gen_c14.vary_cells(rng, ops)
         return self._plan(dict(config=cfg, ops=ops))
 
     # -- implementation ----------------------------------------------------------
@@ -407,6 +504,7 @@ class C14(Prop):
         steps = obs["steps"]
         ref = ref_run(cfg, ops)
         args = fill_args(ops)
+        pshape = obs.get("pshape")
 
         def F(what, i, **kw):
             fails.append(dict(what=what, step=i, op=ops[i] if i is not None else None, config=cfg, ops=ops, **kw))
@@ -416,20 +514,25 @@ class C14(Prop):
         for i, st in enumerate(steps):
             en_before = ref[i - 1][0] if i else False
             en_after = ref[i][0]
+            pend_before = ref[i - 1][6] if i else False
+            pend_after = ref[i][6]
+            on_before, on_after = en_before or pend_before, en_after or pend_after
             diff0 = st["diff0"]
-            prev0 = steps[i - 1]["diff0"] if i else {}
             if st["escaped"]:
                 F("an exception escaped a public entry point", i, escaped=st["escaped"])
             changed = {k: v for k, v in st["changed"].items() if k not in HANDLES and k not in IPY_NOISE}
             # --- idempotence: an op the reference machine calls a no-op changes nothing
-            if ops[i] in ("enable", "enable_again", "disable", "load_ext", "unload_ext") and en_before == en_after and changed:
+            if ops[i] in ("enable", "enable_again", "disable", "load_ext", "unload_ext") \
+                    and (en_before, pend_before) == (en_after, pend_after) and changed:
                 F("an op that does not change the enabled state changed patched attributes", i,
                   keys=sorted(changed)[:6])
-            if ops[i] in ("run_cell", "complete") and changed and not (en_before and not en_after):
-                F("running a cell / completing changed hook attributes", i, keys=sorted(changed)[:6])
+            if ops[i] in OBS_OPS and changed and not (en_before and not en_after):
+                plain = self._ref.get((ops[i], args[i][1]))
+                noise = set(plain["changed"]) if plain is not None and ops[i] not in ("run_cell", "complete") else set()
+                if set(changed) - noise:        # (what IPython itself rebinds when it runs this kind of cell is no finding)
+                    F("running a cell / completing changed hook attributes", i, keys=sorted(set(changed) - noise)[:6])
             # --- exactly once
-            for name in JP_ORDER:
-                v = st["mv"]["jp"][name]
+            for name, v in list(st["mv"]["jp"].items()) + [("app." + k, v) for k, v in st["mv"].get("ajp", {}).items()]:
                 if isinstance(v, list) and v[0] == "adv" and v[1] > 1:
                     F("a joinpoint carries more than one pyflyby advice", i, joinpoint=name, depth=v[1])
             for key, (a, b) in diff0.items():
@@ -447,9 +550,9 @@ class C14(Prop):
                         F("the non-pyflyby entries of a hook list differ from the run without pyflyby", i, list=lname,
                           got=got[-6:], want=want[-6:])
             # --- reversibility
-            if not en_before and en_after:
+            if not on_before and on_after:
                 enable_points.append((i, sorted(changed)))
-            if en_before and not en_after and enable_points:
+            if on_before and not on_after and enable_points:
                 k, patched = enable_points[-1]
                 pre = steps[k - 1]["diff0"] if k else {}
                 foreign_between = any(o.startswith("f_") for o in ops[k + 1:i])
@@ -466,7 +569,7 @@ class C14(Prop):
                 if key in HANDLES:
                     continue
                 pf_now.extend((key, t[3]) for t in _pf_tokens(b))
-            if not en_after:
+            if not on_after:
                 if pf_now:
                     F("pyflyby objects remain in the shell while the importer is disabled", i,
                       residue=sorted(set(pf_now))[:6], count=len(pf_now))
@@ -474,10 +577,27 @@ class C14(Prop):
                 if imp is not None and cfg != "embedded":
                     if imp["state"] != "DISABLED" or imp["ndisablers"] != 0:
                         F("importer not DISABLED / disablers left while the reference machine is disabled", i, importer=imp)
+                # a history that started before app.initialize(): while off, the application and its shell look exactly like
+                # those of the same application initialised without pyflyby (kinds and names of every callable / hook list)
+                if pshape is not None and pshape[i] is not None and st.get("shape") is not None:
+                    skip = HANDLES | IPY_NOISE | START_NOISE
+                    a, b = st["shape"], pshape[i]
+                    bad = sorted(k for k in set(a) | set(b) if k not in skip and a.get(k) != b.get(k))
+                    if bad:
+                        F("while disabled the application differs from one initialised without pyflyby", i, keys=bad[:6],
+                          got=_short([a.get(k) for k in bad[:3]]), want=_short([b.get(k) for k in bad[:3]]))
             else:
                 import collections
-                cnt = collections.Counter(pf_now)
-                if not ref[i][3] or "f_drop_pf_cleanup" in ops[:i + 1]:
+                imp = st.get("importer")
+                want_state = "ENABLED" if en_after else "ENABLING"
+                if imp is not None and imp["state"] != want_state:
+                    F("importer not %s while the reference machine is %s" % (want_state, "enabled" if en_after else "pending (enabled "
+                      "before app.initialize())"), i, importer=imp)
+                # the app-level advice exists only in a cycle that started before app.initialize()
+                cnt = collections.Counter(x for x in pf_now if not x[0].startswith("app."))
+                if not en_after:
+                    pass            # pending: nothing of a shell is hooked yet
+                elif not ref[i][3] or "f_drop_pf_cleanup" in ops[:i + 1]:
                     pass            # a third party took pyflyby's own entries away: nothing to count
                 elif n_pf_enabled is None:
                     n_pf_enabled = cnt
@@ -485,32 +605,46 @@ class C14(Prop):
                     excess = sorted(set((cnt - n_pf_enabled) + (n_pf_enabled - cnt)))
                     F("the number of pyflyby objects installed while enabled changed between cycles", i,
                       first=sum(n_pf_enabled.values()), now=len(pf_now), residue=excess[:8])
-                imp = st.get("importer")
-                if imp is not None and imp["state"] != "ENABLED":
-                    F("importer not ENABLED while the reference machine is enabled", i, importer=imp)
             # --- two-state behaviour (with the error-withdrawn state and third-party removals, see ref_run)
-            auto = ref[i][5]
-            if ops[i] == "run_cell":
+            auto, intr = ref[i][5], ref[i][8]
+            op = ops[i]
+            if op in CELL_OPS:
                 c = st["cell"]
-                want = str(1000 + int(args[i][1].rsplit("_", 1)[1]))
-                if auto:
-                    if c["err"] or c["err_before"] or c["result"] != want or not c["bound_after"]:
-                        F("enabled, but a cell reading a known name was not auto-imported", i, cell=c)
-                else:
-                    r = self._ref.get(("run_cell", args[i][1]))
+                name = args[i][1]
+                k = int(name.rsplit("_", 1)[1])
+                if intr:
+                    # the auto-import was interrupted: the cell ends with that exception; everything else (importer still
+                    # on, hooks in place, the next cell auto-imports) is demanded by the per-step clauses above / below
+                    if c["err"] != intr or c["bound_after"]:
+                        F("enabled, but the interrupted auto-import did not end the cell with the interrupt", i, cell=c, want=intr)
+                elif auto:
+                    ok = not c["err"] and not c["err_before"] and c["bound_after"]
+                    if op == "run_cell":
+                        ok = ok and c["result"] == str(1000 + k)
+                    elif op == "autocall":
+                        ok = ok and c["result"] == repr((3000 + k, (7,)))
+                    elif op == "pinfo":
+                        ok = ok and "not found" not in st["stdout"]
+                    elif op == "run_script":
+                        ok = ok and ("script %d ran" % k) in st["stdout"]
+                    if not ok:
+                        F("enabled, but a cell reading a known name was not auto-imported", i, cell=c, stdout=st["stdout"][-200:])
+                elif op == "run_cell" or not en_before:
+                    r = self._ref.get((op, name))
                     if r is not None:
                         rc = r["cell"]
-                        if (c["err"], c["errmsg"], c["result"], c["bound_after"]) != (rc["err"], rc["errmsg"], rc["result"], rc["bound_after"]) \
+                        if (c["err"], c["errmsg"], c["result"], c["bound_after"], c["err_before"]) != \
+                                (rc["err"], rc["errmsg"], rc["result"], rc["bound_after"], rc["err_before"]) \
                                 or st["stdout"] != r["stdout"] or st["stderr"] != r["stderr"]:
                             F("disabled, but the cell does not fail exactly as in plain IPython", i, cell=c, plain=rc,
                               stdout=st["stdout"][-200:], plain_stdout=r["stdout"][-200:])
-            if ops[i] == "complete":
+            if op in ("complete", "complete_attr"):
                 c = st["complete"]
                 if auto:
                     if not c["has"]:
                         F("enabled, but completion does not offer the known name", i, complete=c)
                 elif not en_before:
-                    r = self._ref.get(("complete", args[i][1]))
+                    r = self._ref.get((op, args[i][1]))
                     if r is not None and c["matches"] != r["complete"]["matches"]:
                         F("disabled, but completion differs from plain IPython", i, complete=c, plain=r["complete"]["matches"])
         return fails[:6]
@@ -520,7 +654,7 @@ class C14(Prop):
         self._ensure_ref()
         mops, marks = model_ops(case.get("config", "terminal"), case["ops"])
         mcfg = dict(resetDisabler=self._variant["resetDisabler"], debugHookSafe=False, redisplayGuard=False, debug=False)
-        return [dict(op="trace", cfg=mcfg, ops=mops, marks=marks)]
+        return [dict(op="traceApp" if case.get("config") == "preinit" else "trace", cfg=mcfg, ops=mops, marks=marks)]
 
     def compare(self, case, obs, resps):
         cfg = case.get("config", "terminal")
@@ -551,6 +685,15 @@ class C14(Prop):
                     return f"step {i} {op}: importer impl={got} model={want}"
                 if not m["refok"]:
                     return f"step {i} {op}: model state does not refine the reference machine"
+                if "ajp" in m:      # application-level model: the two attributes advised before app.initialize()
+                    ga = [a["mv"]["ajp"][n] if a["mv"]["ajp"][n] == "unset" else (a["mv"]["ajp"][n][0], a["mv"]["ajp"][n][1])
+                          for n in gen_c14.APP_JOINPOINTS]
+                    wa = ["unset" if v[2] == "unset" else (v[2], v[0]) for v in m["ajp"]]
+                    if ga != wa:
+                        return f"step {i} {op}: application joinpoints impl={ga} model={wa}"
+                    r9 = ref_run(cfg, case["ops"])[i]
+                    if (m["state"] == "ENABLED", m["pending"]) != (r9[0], r9[6]):
+                        return f"step {i} {op}: model state {m['state']} vs reference machine enabled={r9[0]} pending={r9[6]}"
             if a["loaded"] != m["loaded"]:
                 return f"step {i} {op}: loaded impl={a['loaded']} model={m['loaded']}"
             # joinpoints
@@ -567,6 +710,8 @@ class C14(Prop):
             if gj != wj:
                 return f"step {i} {op}: joinpoints impl={gj} model={wj}"
             for lname, mkey in (("ast_transformers", "ast"), ("input_transformers_cleanup", "cleanup")):
+                if a["mv"]["hlobj"][lname] is None:
+                    continue        # before app.initialize(): there is no shell whose lists could be compared
                 gl = [(e[0], ri((e[0], e[1]))) for e in a["mv"]["hl"][lname]]
                 wl = [(e[0], rm((e[0], e[1]))) for e in m[mkey]]
                 if gl != wl:
@@ -583,10 +728,21 @@ class C14(Prop):
                 broken = not ref_run(cfg, case["ops"])[i][4]
                 if auto != m["auto"] or (not broken and m["work"] != auto):
                     return f"step {i} run_cell: auto-imported impl={auto} model auto={m['auto']} work={m['work']}"
-            if op == "complete":
+            elif op in CELL_FORMS[:4]:
+                # the other hooks: pyflyby's part ran (and imported) iff the model says the hook was installed and worked
+                auto = a["cell"]["err"] is None and a["cell"]["err_before"] is None and a["cell"]["bound_after"]
+                broken = not ref_run(cfg, case["ops"])[i][4]
+                if not broken and bool(m["work"]) != auto:
+                    return f"step {i} {op}: auto-imported impl={auto} model work={m['work']}"
+            elif op in INTERRUPT_OPS:
+                broken = not ref_run(cfg, case["ops"])[i][4]
+                hit = a["cell"]["err"] == INTERRUPT_CLASS[op]
+                if not broken and hit != (m["auto"] and bool(m["work"])):
+                    return f"step {i} {op}: interrupted impl={hit} model auto={m['auto']} work={m['work']}"
+            if op in ("complete", "complete_attr"):
                 has = a["complete"]["has"]
                 if has != (m["delivered"] == "pyflyby"):
-                    return f"step {i} complete: known name offered impl={has} model delivered={m['delivered']}"
+                    return f"step {i} {op}: known name offered impl={has} model delivered={m['delivered']}"
         return None
 
     # -- bookkeeping ---------------------------------------------------------------
